@@ -999,6 +999,15 @@ class PteraTransformer(NodeTransformer):
         )
 
     def visit_With(self, node):
+        if len(node.items) > 1:
+            # Equivalent to nested with statements: the variable bound by an
+            # item can be used (possibly overridden) by the next ones
+            inner = ast.copy_location(
+                ast.With(items=node.items[1:], body=node.body), node
+            )
+            node = ast.copy_location(
+                ast.With(items=node.items[:1], body=[inner]), node
+            )
         new_body = []
         for item in node.items:
             if item.optional_vars is not None:
